@@ -323,6 +323,12 @@ class Check:
         self.notes = []
         os.makedirs(os.path.join(VERIF, 'replays'), exist_ok=True)
         os.makedirs(os.path.join(VERIF, 'evidence'), exist_ok=True)
+        for f in os.listdir(os.path.join(VERIF, 'replays')):       # replays of earlier runs of this property
+            if f.startswith(pid + '-'):
+                try:
+                    os.remove(os.path.join(VERIF, 'replays', f))
+                except OSError:
+                    pass
 
     # --- proofs
     def check_proofs(self, extra_targets=()):
